@@ -772,7 +772,8 @@ def w_pairs_from(first):
 
 def _mutable_kind(x):
     if isinstance(x, bitarray):
-        return "bitarray-" + x.endian()
+        e = x.endian
+        return "bitarray-" + (e() if callable(e) else str(e))
     if isinstance(x, bytearray):
         return "bytearray"
     if isinstance(x, list):
